@@ -1,6 +1,10 @@
 package main
 
-import "os"
+import (
+	"bufio"
+	"bytes"
+	"os"
+)
 
 func vTempDir() string {
 	d, err := os.MkdirTemp("", "verif-replay-db-")
@@ -8,4 +12,8 @@ func vTempDir() string {
 		panic(err)
 	}
 	return d
+}
+
+func verifChunkReader(chunks [][]byte) *bufio.Reader {
+	return bufio.NewReader(bytes.NewReader(bytes.Join(chunks, nil)))
 }
